@@ -181,7 +181,7 @@ func StartWatchdog(limit time.Duration, on func(variant int, hist []Op)) {
 	go func() {
 		for {
 			time.Sleep(2 * time.Second)
-			now := time.Now().UnixNano()
+			now := int64(engine.VirtualNow()) // the limit is on the virtual clock (engine/vclock.go), not the wall clock
 			var hit *inflight
 			inflightTab.Range(func(_, v any) bool {
 				if f := v.(*inflight); time.Duration(now-f.start) > limit {
@@ -249,7 +249,7 @@ func (e *Exec) Apply(op Op, logWrites bool) *Outcome {
 	if logWrites {
 		e.Dev.StartLog()
 	}
-	inflightTab.Store(e, &inflight{time.Now().UnixNano(), e, op})
+	inflightTab.Store(e, &inflight{int64(engine.VirtualNow()), e, op})
 	withClock(e.Clock, func() { e.apply(op, out) })
 	inflightTab.Delete(e)
 	e.Hist = append(e.Hist, op)
